@@ -896,6 +896,11 @@ class Interp:
         if base in self.fns: return ('mir', self.fns[base], self.tysub(self.fns[base], tys))
         r = models.lookup(self, callee, base)
         if r is not None: return r
+        mf0 = re.fullmatch(r'<([\w:]+) as std::convert::From<(.*)>>::from', callee)
+        if mf0:
+            for n, f in self.fns.items():
+                if n.endswith('>::from') and '<impl at ' in n and f.ret == mf0.group(1) and f.param_types and f.param_types[0] == mf0.group(2):
+                    return ('mir', f, None)
         m = re.fullmatch(r'<([\w:]+)(?:<(.*)>)? as ([\w:]+)(?:<(.*)>)?>::(\w+)(?:::<.*>)?', callee)
         if m:
             selfargs = [t.strip() for t in split_top(m.group(2), ',')] if m.group(2) else []
@@ -918,6 +923,12 @@ class Interp:
                 if (tkey, None, m.group(2)) in self.impls:
                     fn = self.fns[self.impls[(tkey, None, m.group(2))]]
                     return ('mir', fn, self.tysub(fn, tys))
+        mf = re.fullmatch(r'<([\w:]+) as std::convert::From<(.*)>>::from', callee)
+        if mf:
+            # several `impl From<X> for T`: pick the body whose parameter type is X
+            for n, f in self.fns.items():
+                if n.endswith('>::from') and '<impl at ' in n and f.ret == mf.group(1) and f.param_types and f.param_types[0] == mf.group(2):
+                    return ('mir', f, None)
         mi = re.fullmatch(r'<(.*) as std::convert::Into<(.*)>>::into', callee)
         if mi:
             key = (mi.group(2).split('::')[-1], 'From<%s>' % re.sub(r'\s+', '', mi.group(1)), 'from')
